@@ -128,6 +128,7 @@ def check(ctx):
     ctx.guard("C14.c DATA-CHECK", "check_data", lambda: check_check_data(ctx), "")
     ctx.guard("C14.d NONEMPTY", "boundary", lambda: check_nonempty(ctx), "")
     ctx.guard("C14.d NONEMPTY", "dp-candidates", lambda: shared_dp_candidates(ctx), "")
+    ctx.guard("C14.d NONEMPTY", "tune-operand", lambda: check_tune_operand(ctx), "")
     ctx.expect_min("C14.a VALIDATION-TABLE", sum(1 for o in ctx.obs if o.rule == "C14.a VALIDATION-TABLE" and o.status == "HOLDS"), 24)
     ctx.expect_min("C14.c DATA-CHECK", sum(1 for o in ctx.obs if o.rule == "C14.c DATA-CHECK" and o.status == "HOLDS"), 12)
 
@@ -540,3 +541,78 @@ def check_nonempty(ctx):
                         pre = [Lin.of(lift(N) - 2 * b), Lin.of(b - 1)]
                         ctx.check(entails(pre, Lin.of(size - 1)), "C14.d NONEMPTY", "moving-window|positions", evs[0].loc(), "for n >= 2*bandwidth there is at least one scored position", found=f"{size!r} positions", expected=">= 1")
                         ctx.check(entails(pre, Lin.of(Kk - L - 1)) and entails(pre, Lin.of(R - Kk - 1)), "C14.d NONEMPTY", "moving-window|parts", evs[0].loc(), "both windows of every cut hold at least one sample for bandwidth >= 1 (bandwidth = 1 is a valid configuration)", found=f"K-L = {Kk - L!r}, R-K = {R - Kk!r}", expected=">= 1")
+
+
+# ------------------------------------------------------- NONEMPTY: operand of the tuning quantile
+
+
+def check_tune_operand(ctx):
+    """`threshold_scale=None` is a documented configuration: fit takes np.quantile of training scores.  np.quantile of an
+    EMPTY array raises IndexError.  The operand is the complete score output of the driver (non-empty by the drivers' own
+    NONEMPTY obligations) or a part of it whose length is at least 1 for every admissible data length - for the moving
+    window n >= 2 * bandwidth, bandwidth >= 1, with n scores; `scores[bandwidth:-bandwidth]` has n - 2*bandwidth elements
+    and is empty at the documented minimum length (seed C14_18)."""
+    from . import c15
+    from ..affine import satisfiable
+    from ..nf import as_linear, subst
+
+    rule = "C14.d NONEMPTY"
+    for pkg, name in (("skchange.change_detectors", "MovingWindow"), ("skchange.change_detectors", "SeededBinarySegmentation"), ("skchange.anomaly_detectors", "CircularBinarySegmentation")):
+        cls = ctx.P.public_class(pkg, name)
+        drv = c15.DRIVERS[name]
+        if drv not in ctx.P.functions:
+            from .c02 import find_driver_call
+
+            found = None
+            for mname in ("_tune_threshold", "_transform_scores", "_predict"):
+                m_ = ctx.P.lookup_method(cls, mname)
+                cands = find_driver_call(ctx, m_) if m_ is not None else []
+                if len(cands) == 1:
+                    found = cands[0][1]
+                    break
+            if found is None:
+                ctx.undecided(rule, f"tune-operand|{name}", cls.module.relpath, "driver not found (anchor vanished)")
+                continue
+            dfunc = found
+        else:
+            dfunc = ctx.P.functions[drv]
+        summ = {dfunc.qualname: c15._driver_summary(name)}
+        ex, paths, st = c15.fit_scenario(ctx, cls, overrides={"threshold_scale": NONE}, summaries=summ)
+        loc = ctx.P.lookup_method(cls, "_fit").loc()
+        good = c15.ok_paths(paths)
+        if not good:
+            ctx.undecided(rule, f"tune-operand|{name}", loc, "fit with threshold_scale=None never returns in the scenario")
+            continue
+        seen = 0
+        for p in good:
+            for e in p.events:
+                if e.kind != "quantile":
+                    continue
+                seen += 1
+                v = e.data["over"]
+                a = single_atom(v.nf) if isinstance(v, Num) and v.nf is not None else None
+                if a is not None and a.kind == "app" and a.args[0] == "driver_out":
+                    ctx.holds(rule, f"tune-operand|{name}", e.loc(), "the tuning quantile is taken over a complete output of the driver (one score per position / interval; non-empty by the driver's own obligations)")
+                    continue
+                L = lift(v.shape[0]) if isinstance(v, Num) and v.shape else None
+                if L is None:
+                    ctx.undecided(rule, f"tune-operand|{name}", e.loc(), "the length of the operand of the tuning quantile is not known", found=valkey(v)[:100])
+                    continue
+                # the driver's output length: n for the moving window (one score per row), at least 1 otherwise
+                lens = [a_ for a_ in atoms_of(L).values() if a_.kind == "sym" and str(a_.args[0]).startswith("len")]
+                pre = []
+                b = sym("bandwidth")
+                if name == "MovingWindow":
+                    for a_ in lens:
+                        L = subst(L, {a_.key: lift(N)})
+                    pre = [Lin.of(lift(N) - 2 * b), Lin.of(b - 1)]
+                else:
+                    pre = [Lin.of(NF.atom(a_) - 1) for a_ in lens]
+                goal = Lin.of(L - 1)
+                if goal is None:
+                    ctx.undecided(rule, f"tune-operand|{name}", e.loc(), "the length of the operand of the tuning quantile is not an affine expression", found=repr(L))
+                    continue
+                ok = entails(pre, goal)
+                ctx.check(ok, rule, f"tune-operand|{name}", e.loc(), "the operand of the tuning quantile holds at least one score for every admissible data length (np.quantile of an empty array raises IndexError in fit)", found=f"{L!r} elements" + ("" if ok else " - 0 at the documented minimum length"), expected=">= 1 for n >= 2 * bandwidth" if name == "MovingWindow" else ">= 1")
+        if not seen:
+            ctx.undecided(rule, f"tune-operand|{name}", loc, "no np.quantile on the tuning path")
